@@ -14,7 +14,7 @@ MEMPROP = {"replay_parser": "C01", "replay_writer": "C04", "replay_tostring": "C
 
 def _env():
     e = dict(os.environ)
-    e["ASAN_OPTIONS"] = "exitcode=66:abort_on_error=0:detect_leaks=0:allocator_may_return_null=1"
+    e["ASAN_OPTIONS"] = "exitcode=66:abort_on_error=0:detect_leaks=0:allocator_may_return_null=1:detect_stack_use_after_return=1"
     e["UBSAN_OPTIONS"] = "print_stacktrace=1:halt_on_error=1:exitcode=67"
     return e
 
@@ -45,7 +45,7 @@ def _filter_known(prop, lines):
 
 
 def product_stage(prop, name, module, base_cfg, overrides, replayer="replay_parser", timeout=1500,
-                  heap="8g", workers=None, extra_replayer_args=""):
+                  heap="8g", workers=None, extra_replayer_args="", memprop=None):
     """TLC explores `module` under base_cfg+overrides with EmitOn=TRUE; every behaviour it prints is
     executed by `replayer` (ASan+UBSan build of the current tree)."""
     t0 = time.time()
@@ -59,7 +59,7 @@ def product_stage(prop, name, module, base_cfg, overrides, replayer="replay_pars
     meta = tempfile.mkdtemp(prefix="tlc-", dir=odir)
     tlc = vlib.tlc_cmd(module, os.path.basename(cfg), workers=workers, metadir=meta, heap=heap)
     rp = ("%s/%s --prop %s --memprop %s --outdir %s --tlclog %s/tlc.log --summary %s/sum.json --samples %s/samples.txt %s"
-          % (bdir, replayer, prop, MEMPROP.get(replayer, "C01"), odir, odir, odir, odir, extra_replayer_args))
+          % (bdir, replayer, prop, memprop or MEMPROP.get(replayer, "C01"), odir, odir, odir, odir, extra_replayer_args))
     cmd = "cd %s && timeout %d %s 2>&1 | %s 2>%s/replayer.err" % (SPEC, timeout, tlc, rp, odir)
     r = subprocess.run(cmd, shell=True, capture_output=True, text=True, env=_env())
     shutil.rmtree(meta, ignore_errors=True)
@@ -232,6 +232,9 @@ def _nav(MaxNodes, MaxNest, Vals, DocNames, LookNames, Ops, Roots, ParserMaxD=4,
     return dict(MaxNodes=MaxNodes, MaxNest=MaxNest, Vals=Vals, DocNames=DocNames, LookNames=LookNames,
                 Ops=Ops, Roots=Roots, ParserMaxD=ParserMaxD, HistK=HistK, NavScope='"%s"' % NavScope)
 
+def _ts(MaxNodes, MaxNest, Vals, DocNames, AllCaps, WithInvalid="TRUE", Roots="RootsOA", Pres="Pres0"):
+    return dict(MaxNodes=MaxNodes, MaxNest=MaxNest, Vals=Vals, DocNames=DocNames, Roots=Roots, AllCaps=AllCaps, WithInvalid=WithInvalid, Pres=Pres)
+
 NAV_STAGES = {
     "C06": {"quick":    [("nav", _nav(4, 3, "ValsInt1", "NamesAB", "LookAB", "OpsNavE", "RootsOA")),
                          ("nav-history-2", _nav(3, 3, "ValsInt1", "NamesAB", "LookAB", "OpsNav", "RootsOA", HistK=2))],
@@ -240,6 +243,7 @@ NAV_STAGES = {
                          ("nav-mixed-values", _nav(4, 3, "ValsMix", "NamesAB", "LookAB", "OpsNavE", "RootsOA"))]},
     "C03": {"quick":    [("values-names", _nav(2, 2, "ValsAll", "NamesRich", "LookAB", "OpsNav", "RootsOA")),
                          ("full-traversals", _nav(5, 3, "ValsInt1", "NamesE", "LookAB", "OpsFull", "RootsOA", NavScope="C03,C06")),
+                         ("reused-parser", _nav(3, 3, "ValsInt1", "NamesAB", "LookAB", "OpsReuse", "RootsOA")),
                          ("values-3", _nav(3, 2, "ValsAll", "NamesAB", "LookAB", "OpsWalk", "RootsOA"))],
             "thorough": [("values-names", _nav(3, 3, "ValsAll", "NamesRich", "LookAB", "OpsWalk", "RootsOA")),
                          ("full-traversals", _nav(7, 4, "ValsInt1", "NamesE", "LookAB", "OpsFull", "RootsOA", NavScope="C03,C06")),
@@ -275,6 +279,14 @@ PTRACE_FLAVOUR = {"C01": "hostile", "C02": "mixed", "C03": "valid", "C06": "vali
                   "C10": "valid", "C11": "valid", "C12": "mixed", "C16": "hostile"}
 
 
+def corpus_stage(prop, tier, which):
+    """the repository's own corpus (utest/test_data): init + verify (+ full traversal of the valid ones) on the
+    real library, validated by TLC against Layer A.  quick: a seeded slice, thorough: every file."""
+    d = os.path.join(vlib.REPO, "utest", "test_data", which)
+    n = {"quick": {"bad_objects": 220, "valid_objects": 50}, "thorough": {"bad_objects": 0, "valid_objects": 0}}[tier][which]
+    return trace_stage(prop, "corpus-" + which, "record_parser", "--corpus %s --docs %d" % (d, n), "TraceParser.tla", "TraceParser.cfg")
+
+
 def parser_trace_stage(prop, tier):
     fl = PTRACE_FLAVOUR[prop]
     return trace_stage(prop, "recorded-" + fl, "record_parser", PTRACE[tier][fl], "TraceParser.tla", "TraceParser.cfg")
@@ -297,9 +309,11 @@ for _p in NAV_STAGES:
 STREAM_STAGES = {
     "quick":    [("stream-k3", dict(K=3, MaxD=2, Sigma="SigmaS", Names="NamesS", Roots="RootsOA", HistK=0)),
                  ("stream-k2-history-2", dict(K=2, MaxD=2, Sigma="SigmaS", Names="NamesS", Roots="RootsOA", HistK=2)),
+                 ("stream-k4-name-order", dict(K=4, MaxD=2, Sigma="SigmaT", Names="NamesS", Roots="RootsO", HistK=1)),
                  ("stream-k2-large-alphabet", dict(K=2, MaxD=1, Sigma="SigmaL", Names="NamesS", Roots="RootsOA", HistK=0))],
     "thorough": [("stream-k4", dict(K=4, MaxD=2, Sigma="SigmaS", Names="NamesS", Roots="RootsOA", HistK=0)),
                  ("stream-k3-history-2", dict(K=3, MaxD=2, Sigma="SigmaS", Names="NamesS", Roots="RootsOA", HistK=2)),
+                 ("stream-k5-name-order", dict(K=5, MaxD=2, Sigma="SigmaT", Names="NamesS", Roots="RootsO", HistK=1)),
                  ("stream-k3-large-alphabet", dict(K=3, MaxD=3, Sigma="SigmaL", Names="NamesS", Roots="RootsOA", HistK=0))],
 }
 
@@ -340,7 +354,8 @@ EXTRA_STAGES = {
                       ("to-writer-latched", "MC_Nav.tla", "MC_Nav.cfg", _nav(3, 3, "ValsInt1", "NamesAB", "LookAB", "OpsNav", "RootsOA"))],
             "thorough": [("writer-latch", "MC_Writer.tla", "MC_Writer.cfg", WRITER_T),
                          ("to-writer-latched", "MC_Nav.tla", "MC_Nav.cfg", _nav(5, 3, "ValsInt1", "NamesAB", "LookAB", "OpsNav", "RootsOA"))]},
-    "C01": {"quick": [("nesting-limits", "MC_Verify.tla", "MC_Verify.cfg", dict(K=0, MaxDs="MaxDsDeep", Sigma="SigmaMid", Deep="TRUE"))],
+    "C01": {"quick": [("nesting-limits", "MC_Verify.tla", "MC_Verify.cfg", dict(K=0, MaxDs="MaxDsDeep", Sigma="SigmaMid", Deep="TRUE")),
+                      ("to_string-then-reuse", "MC_ToString.tla", "MC_ToString.cfg", _ts(2, 3, "ValsText", "NamesAB", "FALSE", "TRUE", "RootsOA", "Pres012"))],
             "thorough": [("nesting-limits", "MC_Verify.tla", "MC_Verify.cfg", dict(K=0, MaxDs="MaxDsDeep", Sigma="SigmaMid", Deep="TRUE"))]},
 }
 
@@ -351,7 +366,8 @@ def check_safety(prop, tier, replay):
     t0 = time.time()
     stages = [product_stage(prop, name, "MC_Safety.tla", "MC_Safety.cfg", c) for name, c in SAFETY_STAGES[tier]]
     for name, mod, cfg, c in EXTRA_STAGES.get(prop, {}).get(tier, []):
-        stages.append(product_stage(prop, name, mod, cfg, c, replayer="replay_writer" if mod == "MC_Writer.tla" else "replay_parser"))
+        stages.append(product_stage(prop, name, mod, cfg, c, replayer={"MC_Writer.tla": "replay_writer", "MC_ToString.tla": "replay_tostring"}.get(mod, "replay_parser"),
+                                    memprop=prop if mod == "MC_ToString.tla" else None))
     stages.append(parser_trace_stage(prop, tier))
     if prop == "C16":
         stages.append(trace_stage(prop, "recorded-large-documents", "record_tostring", "--big --docs %d" % (150 if tier == "quick" else 3000),
@@ -371,12 +387,14 @@ VERIFY_STAGES = {
     "quick":    [("tokens-k2-full", dict(K=2, MaxDs="MaxDs123", Sigma="SigmaFull", Deep="FALSE")),
                  ("tokens-k3-full", dict(K=3, MaxDs="MaxDs2", Sigma="SigmaFull", Deep="FALSE")),
                  ("names-k4", dict(K=4, MaxDs="MaxDs2", Sigma="SigmaNames", Deep="FALSE")),
+                 ("names-k5-tiny", dict(K=5, MaxDs="MaxDs2", Sigma="SigmaTiny", Deep="FALSE")),
                  ("nesting-limits", dict(K=0, MaxDs="MaxDsDeep", Sigma="SigmaMid", Deep="TRUE"))],
     "thorough": [("tokens-k3-full", dict(K=3, MaxDs="MaxDs123", Sigma="SigmaFull", Deep="FALSE")),
                  ("tokens-k4-full", dict(K=4, MaxDs="MaxDs2", Sigma="SigmaFull", Deep="FALSE")),
                  ("tokens-k2-wide", dict(K=2, MaxDs="MaxDs123", Sigma="SigmaWide", Deep="FALSE")),
                  ("tokens-k4-mid", dict(K=4, MaxDs="MaxDs2", Sigma="SigmaMid", Deep="FALSE")),
                  ("names-k5", dict(K=5, MaxDs="MaxDs2", Sigma="SigmaNames", Deep="FALSE")),
+                 ("names-k6-tiny", dict(K=6, MaxDs="MaxDs2", Sigma="SigmaTiny", Deep="FALSE")),
                  ("nesting-limits", dict(K=0, MaxDs="MaxDsDeep", Sigma="SigmaMid", Deep="TRUE"))],
 }
 
@@ -387,6 +405,8 @@ def check_verify(prop, tier, replay):
     t0 = time.time()
     stages = [product_stage(prop, name, "MC_Verify.tla", "MC_Verify.cfg", c) for name, c in VERIFY_STAGES[tier]]
     stages.append(parser_trace_stage(prop, tier))
+    stages.append(corpus_stage(prop, tier, "bad_objects"))
+    stages.append(corpus_stage(prop, tier, "valid_objects"))
     return finish(prop, tier, stages, t0, ASSUME_COMMON)
 
 
@@ -424,9 +444,6 @@ REGISTRY["C05"] = check_writer
 
 
 # ------------------------------------------------------------ C13 / C14 -------
-def _ts(MaxNodes, MaxNest, Vals, DocNames, AllCaps, WithInvalid="TRUE", Roots="RootsOA", Pres="Pres0"):
-    return dict(MaxNodes=MaxNodes, MaxNest=MaxNest, Vals=Vals, DocNames=DocNames, Roots=Roots, AllCaps=AllCaps, WithInvalid=WithInvalid, Pres=Pres)
-
 TOSTRING_STAGES = {
     "C13": {"quick":    [("caps-text", _ts(3, 3, "ValsText", "NamesAB", "TRUE")),
                          ("caps-wide", _ts(1, 2, "ValsWide", "NamesOdd", "TRUE")),
